@@ -20,6 +20,11 @@
 //	always         : <=1 NACK packet per SSRC per tick, no duplicate number in a tick,
 //	                 nothing for a stream without nack feedback / an unbound SSRC.
 //
+// Stream bookkeeping inside a history (about 30% of the generated cases, five scripts):
+// UnbindRemoteStream / BindRemoteStream of the same or another SSRC with or without a tick in
+// between, unbind only, additional streams. A re-bound SSRC is a fresh stream for the model;
+// an unbound SSRC must be silent from the second tick after the unbind.
+//
 // Case kinds: the first len(scripts) cases are fixed minimal scripts (regressions and
 // minimal witnesses), the rest are generated histories.
 package c03
@@ -715,9 +720,11 @@ type stream struct {
 	servedOnce       bool            // a number of this stream's expected set has been requested since the bind
 	prev16           map[uint16]bool // same SSRC, previous binding: what was missing there at unbind time
 	prevFirst        uint16
-	ticksSince       int64  // stream-ticks decided since the bind
-	unservedTicks    int64  // ticks with a non-empty expected set before the binding was first served
-	heldSig, heldMsg string // a not-requested finding of the first such tick
+	ticksSince       int64 // stream-ticks decided since the bind
+	unservedTicks    int64 // ticks with a non-empty expected set before the binding was first served
+	unservedMaxE     int
+	notServed        bool
+	heldSig, heldMsg string // a not-requested finding of such a tick, until it is decided how to name it
 	maxStep          int64  // >0: arrivals that any receiver takes for a forward step larger than this are not fed
 	suppressed       int64
 	wraps            int64
@@ -1064,6 +1071,15 @@ func (e *engine) checkStream(st *stream, t int64) {
 	}
 	if m.matched > 0 {
 		st.servedOnce = true
+	} else if st.boundMid && !st.servedOnce {
+		// a request for a number this binding is missing but that is still inside skipLastN
+		// is excluded by the statement, yet it shows that the binding's own log is scanned
+		for _, x := range r.G {
+			if _, own := m.findMissing(x); own {
+				st.servedOnce = true
+				break
+			}
+		}
 	}
 	// A stream bound after the history had started that has not had a single number of its
 	// expected set requested since the bind: after the second such tick this is reported as a
@@ -1071,6 +1087,7 @@ func (e *engine) checkStream(st *stream, t int64) {
 	unserved := st.boundMid && !st.servedOnce && len(r.E) > 0
 	if unserved {
 		st.unservedTicks++
+		st.unservedMaxE = max(st.unservedMaxE, len(r.E))
 	}
 	violate := func(sig, msg string) {
 		if st.reported[sig] {
@@ -1091,24 +1108,28 @@ func (e *engine) checkStream(st *stream, t int64) {
 			len(r.E), u16s(r.E, 24), len(r.G), len(st.tickPkts), u16s(r.G, 24),
 			uint16(m.first), uint16(m.highest), uint16(m.highest-m.size), uint16(m.highest), st.fed, st.history())
 		if unserved && (f.sig == sigOmitted || f.sig == sigFirstTime) {
-			if st.unservedTicks == 1 {
-				st.heldSig, st.heldMsg = f.sig, msg+"\n(reported when the stream was first served, or at the end of the history)"
+			// decided below: either the binding as a whole is not served, or these numbers are
+			if st.heldSig == "" && !st.notServed {
+				st.heldSig, st.heldMsg = f.sig, msg
 			}
 			continue
 		}
 		violate(f.sig, msg)
 	}
-	if unserved && st.unservedTicks == 2 {
+	switch {
+	case st.notServed:
+	case unserved && st.unservedTicks >= 2 && st.unservedMaxE >= 2:
+		// at least two ticks with a non-empty expected set, one of them with two or more
+		// numbers, and never a single one of them requested
 		sig := sigLateBoundNoSrv
 		if st.afterUnbind {
 			sig = sigReboundNotSrv
 		}
-		st.heldSig = ""
-		violate(sig, fmt.Sprintf("%s\nstream %d of %d, SSRC %#x, tick #%d (virtual T0+%v): no number this stream is missing has been requested at any of the %d tick(s) since it was bound, at 2 of them its expected set was not empty\nexpected now: %d numbers %s\nrequested for the SSRC at this tick: %d numbers in %d packet(s) %s\nmodel: first=%d highest=%d (16-bit values; %d packets fed to this stream)\n%s\n%s",
-			e.g, st.idx+1, len(e.streams), st.ssrc, t, time.Duration(t)*e.g.interval, st.ticksSince,
+		st.notServed, st.heldSig = true, ""
+		violate(sig, fmt.Sprintf("%s\nstream %d of %d, SSRC %#x, tick #%d (virtual T0+%v): no number this stream is missing has been requested at any of the %d tick(s) since it was bound; at %d of them its expected set was not empty (up to %d numbers)\nexpected now: %d numbers %s\nrequested for the SSRC at this tick: %d numbers in %d packet(s) %s\nmodel: first=%d highest=%d (16-bit values; %d packets fed to this stream)\n%s\n%s",
+			e.g, st.idx+1, len(e.streams), st.ssrc, t, time.Duration(t)*e.g.interval, st.ticksSince, st.unservedTicks, st.unservedMaxE,
 			len(r.E), u16s(r.E, 24), len(r.G), len(st.tickPkts), u16s(r.G, 24), uint16(m.first), uint16(m.highest), st.fed, e.bookkeeping(), st.history()))
-	}
-	if st.servedOnce && st.heldSig != "" {
+	case st.heldSig != "" && (st.servedOnce || st.unservedTicks >= 2):
 		violate(st.heldSig, st.heldMsg)
 		st.heldSig = ""
 	}
@@ -1119,7 +1140,8 @@ func (e *engine) checkStream(st *stream, t int64) {
 // was unbound, the state of that binding has survived. It only renames a finding.
 func (e *engine) bookkeepingClass(st *stream, f finding) finding {
 	switch f.sig {
-	case sigReqNoPacket, sigReqFirst, sigReqWindow, sigReqReceived, sigReqAhead, sigReqSkip:
+	case sigReqNoPacket, sigReqFirst, sigReqWindow, sigReqAhead:
+		// numbers that cannot belong to this binding at all
 	default:
 		return f
 	}
